@@ -106,6 +106,11 @@ def repv(n, f):
 
 
 # ---------------------------------------------------------------- items
+def _plain(v):
+    """value of a static attribute as `attrs` reports it; only plain values are used through `attrs`"""
+    return v if all(ch.isalnum() or ch == " " for ch in v) else "lexical"
+
+
 def Open(tag="el", define=(), sw=NOE, cs=NOE, cond=NOE, rep=None, sub=None, omit=None,
          sattr=(), dattr=(), oe=None, name=None, bools=(), dm="", um=None, ds="", fs="", i18n=None, tr=None, nm="", ia=()):
     """define: list of (global?, name, expr); rep: (global?, name, expr);
@@ -121,7 +126,7 @@ def Open(tag="el", define=(), sw=NOE, cs=NOE, cond=NOE, rep=None, sub=None, omit
         "sub": {"m": sub[0], "s": bool(sub[1]), "e": sub[2]} if sub else {"m": "none", "s": False, "e": NOE},
         "omit": ({"m": "yes", "e": NOE} if omit is True else {"m": "expr", "e": omit}) if omit is not None else {"m": "no", "e": NOE},
         "sattr": [({"n": n, "key": n.lower(), "val": S("v%d" % j)} if isinstance(n, str) else
-                   {"n": n[0], "key": n[0].lower(), "lex": n[1], "val": S(n[1].get("v", "v%d" % j))})
+                   {"n": n[0], "key": n[0].lower(), "lex": n[1], "val": S(_plain(n[1].get("v", "v%d" % j)))})
                   for j, n in enumerate(sattr, 1)],
         "dattr": [{"n": n, "key": n.lower(), "e": e, "d": n == "", "b": n in bools} for n, e in dattr],
         "oe": {"m": "yes", "s": bool(oe[0]), "e": oe[1]} if oe else {"m": "no", "s": False, "e": NOE},
